@@ -150,6 +150,29 @@ func batches(e *Env, f replication.BinlogFormat, fn string, c Col, w int, quick 
 	}
 }
 
+// pairCase decodes two cells of the same column back to back and records both results AFTER the second call: a value
+// handed out by CellBytes must not be changed by a later call (shared caches / buffers).
+func cellPairCase(e2 *Env, f replication.BinlogFormat, c Col, raw1, raw2 []byte, cls string) {
+	tm, err := realMeta(codecCfg, f, []Col{c})
+	if err != nil {
+		panic(err)
+	}
+	var o1, o2 []byte
+	var n1, n2 int
+	var e1, e3 error
+	rec := safely(func() {
+		o1, n1, e1 = replication.CellBytes(raw1, 0, tm.Types[0], tm.Metadata[0], c.Uns)
+		o2, n2, e3 = replication.CellBytes(raw2, 0, tm.Types[0], tm.Metadata[0], c.Uns)
+	})
+	mk := func(o []byte, n int, err error) M {
+		return M{"err": err != nil, "panic": rec.panicked, "data": B(append([]byte{}, o...)), "hasdata": o != nil, "len": n,
+			"fbits": B(floatBits(c.Typ, o)), "msg": B(rec.msg)}
+	}
+	emitCase(e2, M{"fn": "cellpair", "cls": cls, "typ": int(c.Typ), "metab": B(c.MetaB), "uns": c.Uns,
+		"raw": B(raw1), "raw2": B(raw2), "tz": zoneOffsetFor(c.Typ, raw1), "tz2": zoneOffsetFor(c.Typ, raw2), "zone": os.Getenv("VERIF_ZONE"),
+		"obs": mk(o1, n1, e1), "obs2": mk(o2, n2, e3)})
+}
+
 func init() {
 	modes["c10"] = modeC10
 	modes["c11"] = modeC11
@@ -312,6 +335,26 @@ func modeC12(e *Env) {
 		}
 	}
 	cellCase(e, f, colTimestampOld(), []byte{0, 0, 0, 0}, "timestamp-zero")
+	// pairs decoded back to back: same second / same day, different fractions (what a "last value" cache would share)
+	for i := 0; i < e.N(120, 3000); i++ {
+		fsp := 1 + e.R.Intn(6)
+		for _, c := range []Col{colTimestamp2(fsp), colDateTime2(fsp), colTime2(fsp)} {
+			c := c
+			r1 := genCell(e.R, &c, 0)
+			r2 := append([]byte{}, r1...)
+			nb, _ := fracStorage(fsp)
+			copy(r2[len(r2)-nb:], beN(uint64(genFrac(e.R, fsp)), nb))
+			if c.Kind == "time2" {
+				r2 = genCell(e.R, &c, 0)
+			}
+			cellPairCase(e, f, c, r1, r2, c.Kind+"-pair")
+			cellPairCase(e, f, c, r1, r1, c.Kind+"-pair-same")
+		}
+		for _, c := range []Col{colTimestampOld(), colDateTimeOld(), colDate(), colTimeOld()} {
+			c := c
+			cellPairCase(e, f, c, genCell(e.R, &c, 0), genCell(e.R, &c, 0), c.Kind+"-pair")
+		}
+	}
 }
 
 // modeC13: strings / binaries verbatim for every declared length class.
@@ -576,6 +619,7 @@ func walkImage(tm *replication.TableMap, cols []Col, present *replication.Bitmap
 
 func init() {
 	modes["c09"] = modeC09
+	modes["c13r"] = modeC13Rows
 	modes["c15a"] = modeC15a
 	modes["c16"] = modeC16
 	modes["c17a"] = modeC17a
@@ -645,6 +689,62 @@ func lengthClassCols() []Col {
 	return []Col{colInt("tiny", false), colInt("short", false), colInt("int24", false), colInt("long", false), colInt("longlong", false),
 		colVarchar(100), colVarchar(300), colChar(10), colChar(300), colBit(10), colDecimal(14, 4), colTime2(3), colDateTime2(6), colTimestamp2(1),
 		colBlob(1), colBlob(2), colBlob(3), colBlob(4), colEnum(2), colSet(3), colGeometry(2), colYear(), colDate(), colDateTimeOld(), colFloat(), colDouble()}
+}
+
+// modeC13Rows: string / binary columns at the boundaries of their length prefixes inside rows events (the length rule
+// used to split rows and the value decoder must agree, and the bytes must come back verbatim).
+func modeC13Rows(e *Env) {
+	cfgs := allCfgs()
+	type lc struct {
+		col  Col
+		lens []int
+	}
+	cases := []lc{
+		{colBlob(1), []int{0, 1, 254, 255}}, {colBlob(2), []int{0, 255, 256, 65533, 65534, 65535}}, {colBlob(3), []int{0, 65535, 65536, 70000}},
+		{colBlob(4), []int{0, 65536, 100000}}, {colGeometry(2), []int{0, 256, 65534, 65535}},
+		{colVarchar(65535), []int{0, 255, 256, 65533, 65534, 65535}}, {colVarchar(255), []int{0, 254, 255}}, {colVarchar(256), []int{0, 255, 256}},
+		{colChar(255), []int{0, 254, 255}}, {colChar(256), []int{0, 255, 256}}, {colChar(1023), []int{0, 767, 768, 1022, 1023}},
+	}
+	for rep := 0; rep < e.N(1, 6); rep++ {
+		for i, c := range cases {
+			for _, l := range c.lens {
+				cfg := cfgs[(i+l+rep)%len(cfgs)]
+				t := &Table{ID: 77, DB: "ds", Name: "ts"}
+				a := colInt("long", false)
+				a.Name = "id"
+				b := c.col
+				b.Name = "v"
+				z := colInt("tiny", false)
+				z.Name = "z"
+				t.Cols = []Col{a, b, z}
+				mk := func() []Cell {
+					pre := 1
+					if b.Kind == "blob" || b.Kind == "geometry" {
+						pre = b.P1
+					} else if b.P1 > 255 {
+						pre = 2
+					}
+					return []Cell{{St: "val", Bytes: genCell(e.R, &a, 0)}, {St: "val", Bytes: append(leN(uint64(l), pre), randBytes(e.R, l)...)},
+						{St: "val", Bytes: genCell(e.R, &z, 0)}}
+				}
+				none := []Cell{{St: "absent"}, {St: "absent"}, {St: "absent"}}
+				kind := pickS(e.R, "write", "update", "delete")
+				var rows []RowPair
+				for r := 0; r < 2; r++ {
+					rp := RowPair{B: none, A: none}
+					if kind != "write" {
+						rp.B = mk()
+					}
+					if kind != "delete" {
+						rp.A = mk()
+					}
+					rows = append(rows, rp)
+				}
+				all := []bool{true, true, true}
+				rowsCase(e, cfg, t, kind, rows, nil, all, all, "prefix-boundary")
+			}
+		}
+	}
 }
 
 func modeC09(e *Env) {
@@ -780,6 +880,10 @@ func modeC15a(e *Env) {
 		if i%9 == 0 {
 			t.DB, t.Name = string(randBytes(e.R, 255)), string(randBytes(e.R, 255))
 		}
+		if i%9 == 4 {
+			// name lengths around the values that look like length-encoding escape bytes (251..254) and the maximum
+			t.DB, t.Name = string(randBytes(e.R, pick(e.R, 250, 251, 252, 253, 254, 255))), string(randBytes(e.R, pick(e.R, 250, 251, 252, 253, 254, 255)))
+		}
 		if cfg.TidW == 6 && i%2 == 0 {
 			t.ID = uint64(e.R.Int63n(1 << 48))
 		}
@@ -857,8 +961,40 @@ func statusVars(r *rand.Rand) (vars []byte, charset []int, codes []int) {
 		{19, func() []byte { return randBytes(r, 1) }},
 		{20, func() []byte { return randBytes(r, 1) }},
 	}
-	for _, v := range order {
-		if r.Intn(2) == 0 {
+	// which subset: structured shapes first (every variable alone, as the last one, as the first one, pairs with the
+	// charset variable, prefixes and suffixes of MySQL's order), random subsets otherwise
+	n := len(order)
+	in := make([]bool, n)
+	svCounter++
+	switch shape := svCounter % 8; shape {
+	case 0: // singleton
+		in[(svCounter/8)%n] = true
+	case 1: // prefix ending at k (k is the LAST variable of the block)
+		k := (svCounter / 8) % n
+		for i := 0; i <= k; i++ {
+			in[i] = r.Intn(3) != 0
+		}
+		in[k] = true
+	case 2: // suffix starting at k (k is the FIRST variable)
+		k := (svCounter / 8) % n
+		for i := k; i < n; i++ {
+			in[i] = r.Intn(3) != 0
+		}
+		in[k] = true
+	case 3: // a pair: some variable and the charset
+		in[(svCounter/8)%n] = true
+		in[4] = true
+	case 4: // everything
+		for i := range in {
+			in[i] = true
+		}
+	default:
+		for i := range in {
+			in[i] = r.Intn(2) == 0
+		}
+	}
+	for i, v := range order {
+		if in[i] {
 			vars = append(vars, v.code)
 			vars = append(vars, v.gen()...)
 			codes = append(codes, int(v.code))
@@ -866,6 +1002,8 @@ func statusVars(r *rand.Rand) (vars []byte, charset []int, codes []int) {
 	}
 	return vars, cs, codes
 }
+
+var svCounter int
 
 // modeC16: event headers and control events, with and without a trailing CRC32.
 func modeC16(e *Env) {
